@@ -9,7 +9,7 @@
 //! blocks, every data-model call, internal/external events, idle points — must be equal.
 use crate::dump::dump;
 use crate::gen_doc::{self, Knobs};
-use crate::obs::{run_session_feed, RunOut};
+use crate::obs::{run_child_session_feed, run_session_feed, RunOut};
 use crate::prng::Prng;
 use crate::proto::{hexs, Model};
 use crate::report::Report;
@@ -27,8 +27,12 @@ pub struct Case {
     /// false: all events arrive as one burst while the session is idle after start-up;
     /// true: one event at a time, each after the session went idle again
     pub single: bool,
+    /// run the machine as an invoked child of a simulated parent session (invoke id `inv1`)
+    pub child: bool,
     pub origin: String,
 }
+
+pub const CHILD_INVOKE_ID: &str = "inv1";
 
 pub fn batches_of(events: &[String], single: bool) -> Vec<Vec<String>> {
     // the harness always ends with the platform cancel event
@@ -77,11 +81,15 @@ fn canon_line(l: &str) -> Option<String> {
     }
 }
 
-pub fn run_impl_fsm(fsm: Box<rufsm::fsm::Fsm>, batches: &[Vec<String>], idle_before: &[usize], timeout: Duration) -> ImplRun {
+pub fn run_impl_fsm(fsm: Box<rufsm::fsm::Fsm>, batches: &[Vec<String>], idle_before: &[usize], timeout: Duration, child: bool) -> ImplRun {
     let doc = dump(&fsm);
     let names: HashMap<String, u32> = fsm.states.iter().map(|s| (s.name.clone(), s.id)).collect();
     let evs: Vec<Vec<Event>> = batches.iter().map(|b| b.iter().map(|n| Event::new_simple(n)).collect()).collect();
-    let out = run_session_feed(fsm, &evs, idle_before, true, timeout, true);
+    let out = if child {
+        run_child_session_feed(fsm, CHILD_INVOKE_ID, &evs, idle_before, timeout, true)
+    } else {
+        run_session_feed(fsm, &evs, idle_before, true, timeout, true)
+    };
     let obs = out.trace.iter().filter_map(|l| canon_line(l)).collect();
     ImplRun { doc, names, out, obs }
 }
@@ -97,11 +105,13 @@ pub struct ModelRun {
     pub final_cfg: Option<String>,
     /// number of `idle` observations before each batch is delivered
     pub idle_before: Vec<usize>,
+    /// number of `done.invoke` notifications sent to the parent session
+    pub done_invokes: usize,
 }
 
 const MODEL_ONLY: &[&str] = &["dropped:", "final:", "invoke:", "cancelinv:", "forward:", "doneinvoke", "feed"];
 
-pub fn run_model(model: &mut Model, doc: &str, batches: &[Vec<String>]) -> ModelRun {
+pub fn run_model(model: &mut Model, doc: &str, batches: &[Vec<String>], child: bool) -> ModelRun {
     let feed = if batches.is_empty() {
         "!".to_string()
     } else {
@@ -111,7 +121,12 @@ pub fn run_model(model: &mut Model, doc: &str, batches: &[Vec<String>]) -> Model
             .collect::<Vec<_>>()
             .join("^")
     };
-    let reply = model.ask(&format!("int run {} {} ! 0", doc, feed));
+    let reply = if child {
+        model.ask(&format!("int run {} {} {} 1", doc, feed, hexs(CHILD_INVOKE_ID)))
+    } else {
+        model.ask(&format!("int run {} {} ! 0", doc, feed))
+    };
+    let mut done_invokes = 0usize;
     let mut parts = reply.rsplitn(2, ' ');
     let status = parts.next().unwrap_or("").to_string();
     let tr = parts.next().unwrap_or("");
@@ -127,6 +142,9 @@ pub fn run_model(model: &mut Model, doc: &str, batches: &[Vec<String>]) -> Model
             if o == "feed" {
                 idle_before.push(idles);
             }
+            if o == "doneinvoke" {
+                done_invokes += 1;
+            }
             if let Some(c) = o.strip_prefix("final:") {
                 final_cfg = Some(c.to_string());
             }
@@ -136,7 +154,7 @@ pub fn run_model(model: &mut Model, doc: &str, batches: &[Vec<String>]) -> Model
             obs.push(o.to_string());
         }
     }
-    ModelRun { obs, status, final_cfg, idle_before }
+    ModelRun { obs, status, final_cfg, idle_before, done_invokes }
 }
 
 /// configurations at the end of every `enterStates` (i.e. after start-up and after every
@@ -227,19 +245,19 @@ pub fn correspond(c: &Case, model: &mut Model, rep: &mut Report, prop: &str) -> 
         _ => rep.disagree(json!({"origin": c.origin, "xml": c.xml, "model": "conformant: bad-op"})),
     }
     let batches = batches_of(&c.events, c.single);
-    let pre = run_model(model, &doc0, &batches);
+    let pre = run_model(model, &doc0, &batches, c.child);
     if pre.status == "diverged" {
         rep.count("skipped_model_diverges");
         return CaseOut { imp: None, agreed: true, idle_before: vec![] };
     }
     if pre.status == "bad-op" || pre.status.is_empty() {
-        rep.disagree(json!({"origin": c.origin, "xml": c.xml, "events": c.events, "single": c.single, "model": "bad-op"}));
+        rep.disagree(json!({"origin": c.origin, "xml": c.xml, "events": c.events, "single": c.single, "child": c.child, "model": "bad-op"}));
         return CaseOut { imp: None, agreed: false, idle_before: vec![] };
     }
-    let imp = run_impl_fsm(fsm, &batches, &pre.idle_before, Duration::from_secs(20));
+    let imp = run_impl_fsm(fsm, &batches, &pre.idle_before, Duration::from_secs(20), c.child);
     if imp.out.panicked || imp.out.timed_out {
         rep.count(if imp.out.panicked { "impl_panicked" } else { "impl_timed_out" });
-        rep.disagree(json!({"origin": c.origin, "xml": c.xml, "events": c.events, "single": c.single,
+        rep.disagree(json!({"origin": c.origin, "xml": c.xml, "events": c.events, "single": c.single, "child": c.child,
             "impl": if imp.out.panicked {"panicked"} else {"timed out"}, "model": pre.status,
             "impl_tail": window(&imp.obs, imp.obs.len())}));
         rep.oracle_fail(
@@ -253,7 +271,7 @@ pub fn correspond(c: &Case, model: &mut Model, rep: &mut Report, prop: &str) -> 
     if m.obs != imp.obs {
         agreed = false;
         let at = first_diff(&m.obs, &imp.obs);
-        rep.disagree(json!({"origin": c.origin, "xml": c.xml, "events": c.events, "single": c.single, "first_difference_at": at,
+        rep.disagree(json!({"origin": c.origin, "xml": c.xml, "events": c.events, "single": c.single, "child": c.child, "first_difference_at": at,
             "impl": window(&imp.obs, at), "model": window(&m.obs, at),
             "impl_len": imp.obs.len(), "model_len": m.obs.len()}));
     }
@@ -266,8 +284,33 @@ pub fn correspond(c: &Case, model: &mut Model, rep: &mut Report, prop: &str) -> 
     let impl_final_s = impl_final.map(|v| if v.is_empty() { ".".to_string() } else { v.iter().map(|x| x.to_string()).collect::<Vec<_>>().join(",") });
     if agreed && m.final_cfg != impl_final_s {
         agreed = false;
-        rep.disagree(json!({"origin": c.origin, "xml": c.xml, "events": c.events, "single": c.single,
+        rep.disagree(json!({"origin": c.origin, "xml": c.xml, "events": c.events, "single": c.single, "child": c.child,
             "impl_final_configuration": impl_final_s, "model_final_configuration": m.final_cfg}));
+    }
+    if c.child {
+        rep.count("cases_run_as_invoked_child");
+        let sent: Vec<&String> = imp.out.parent_inbox.iter().collect();
+        let dones = sent.iter().filter(|n| n.starts_with("done.invoke.")).count();
+        if dones > 0 {
+            rep.count("done_invoke_sent_to_parent");
+        }
+        let want = format!("done.invoke.{}", CHILD_INVOKE_ID);
+        if agreed && (dones != m.done_invokes || sent.iter().any(|n| n.starts_with("done.invoke.") && **n != want)) {
+            agreed = false;
+            rep.disagree(json!({"origin": c.origin, "xml": c.xml, "events": c.events, "single": c.single, "child": c.child, "child": true,
+                "impl_sent_to_parent": imp.out.parent_inbox, "model_done_invoke_count": m.done_invokes}));
+            // the statement: done.invoke.<invokeid> iff a top-level final state was reached
+            let reached_final = imp.out.final_configuration.as_ref().map(|v| v.iter().any(|n| {
+                let id = imp.names.get(n).cloned().unwrap_or(0);
+                let tb = parse_tables(&imp.doc);
+                tb.states.get(&id).map(|s| s.is_final && s.parent == tb.root).unwrap_or(false)
+            })).unwrap_or(false);
+            let expected = if reached_final { 1 } else { 0 };
+            if dones != expected {
+                rep.oracle_fail(&format!("{}:done.invoke-count", prop), json!({"origin": c.origin, "xml": c.xml, "events": c.events, "single": c.single, "child": c.child, "child": true,
+                    "sent_to_parent": imp.out.parent_inbox, "top_level_final_reached": reached_final}));
+            }
+        }
     }
     rep.add("obs_compared", imp.obs.len() as u64);
     CaseOut { imp: Some(imp), agreed, idle_before: m.idle_before }
@@ -281,8 +324,11 @@ fn knobs_for(prop: &str) -> Knobs {
             k.parallel_bias = 4;
         }
         "C07" => {
-            k.final_bias = 5;
-            k.parallel_bias = 4;
+            k.final_bias = 6;
+            k.parallel_bias = 5;
+            k.nested_parallel_bias = 5;
+            k.finisher_bias = 8;
+            k.max_states = 16;
         }
         "C03" => {
             k.content_bias = 8;
@@ -307,11 +353,25 @@ fn knobs_for(prop: &str) -> Knobs {
 pub fn gen_case(prop: &str, seed: u64, index: u64) -> (Case, usize) {
     let mut p = Prng::for_case(seed, index);
     let k = knobs_for(prop);
+    // C07 (and a share of C03 / C02): the template whose regions actually reach their final states
+    let use_finals = match prop {
+        "C07" => index % 2 == 0,
+        "C02" | "C03" | "C01" => index % 8 == 0,
+        _ => false,
+    };
+    if use_finals {
+        let (d, events) = gen_doc::gen_finals_doc(&mut p);
+        let xml = gen_doc::render(&d);
+        let single = p.chance(1, 2);
+        let child = p.chance(1, 3);
+        return (Case { xml, events, single, child, origin: format!("gen-finals prop={} seed={} index={}", prop, seed, index) }, gen_doc::count_states(&d));
+    }
     let d = gen_doc::gen_doc(&mut p, &k);
     let xml = gen_doc::render(&d);
     let events = gen_doc::gen_events(&mut p, 10);
     let single = p.chance(1, 2);
-    (Case { xml, events, single, origin: format!("gen prop={} seed={} index={}", prop, seed, index) }, gen_doc::count_states(&d))
+    let child = prop == "C07" && p.chance(1, 3);
+    (Case { xml, events, single, child, origin: format!("gen prop={} seed={} index={}", prop, seed, index) }, gen_doc::count_states(&d))
 }
 
 // ------------------------------------------------------------------ C01
@@ -324,7 +384,7 @@ pub fn oracle_c01(c: &Case, imp: &ImplRun, model: &mut Model, rep: &mut Report) 
     for f in &h.faults {
         rep.oracle_fail(
             &format!("C01:unclean-step:{}", f),
-            json!({"origin": c.origin, "xml": c.xml, "events": c.events, "single": c.single, "fault": f}),
+            json!({"origin": c.origin, "xml": c.xml, "events": c.events, "single": c.single, "child": c.child, "fault": f}),
         );
     }
     if h.boundaries.is_empty() {
@@ -349,7 +409,7 @@ pub fn oracle_c01(c: &Case, imp: &ImplRun, model: &mut Model, rep: &mut Report) 
         if ch != '1' {
             rep.oracle_fail(
                 &format!("C01:illegal-configuration"),
-                json!({"origin": c.origin, "xml": c.xml, "events": c.events, "single": c.single, "boundary": i, "configuration": h.boundaries[i]}),
+                json!({"origin": c.origin, "xml": c.xml, "events": c.events, "single": c.single, "child": c.child, "boundary": i, "configuration": h.boundaries[i]}),
             );
         }
     }
@@ -362,7 +422,7 @@ pub fn oracle_c02(c: &Case, imp: &ImplRun, idle_before: &[usize], rep: &mut Repo
     // repeating the run reproduces the trace exactly (ids are renamed by first appearance because
     // transition / content ids come from process-global counters)
     let again = match parse(&c.xml) {
-        Ok(f) => run_impl_fsm(f, &batches_of(&c.events, c.single), idle_before, Duration::from_secs(20)),
+        Ok(f) => run_impl_fsm(f, &batches_of(&c.events, c.single), idle_before, Duration::from_secs(20), c.child),
         Err(e) => {
             rep.oracle_fail("C02:rerun-rejected", json!({"origin": c.origin, "xml": c.xml, "error": e}));
             return;
@@ -375,7 +435,7 @@ pub fn oracle_c02(c: &Case, imp: &ImplRun, idle_before: &[usize], rep: &mut Repo
         let at = first_diff(&a, &b);
         rep.oracle_fail(
             "C02:nondeterministic-trace",
-            json!({"origin": c.origin, "xml": c.xml, "events": c.events, "single": c.single, "first": window(&a, at), "second": window(&b, at)}),
+            json!({"origin": c.origin, "xml": c.xml, "events": c.events, "single": c.single, "child": c.child, "first": window(&a, at), "second": window(&b, at)}),
         );
     }
 }
@@ -420,11 +480,11 @@ pub fn oracle_c03(c: &Case, imp: &ImplRun, rep: &mut Report) {
             last_sel_empty = v == ".";
         } else if o == "idle" {
             if !last_sel_empty {
-                rep.oracle_fail("C03:idle-with-enabled-eventless-transition", json!({"origin": c.origin, "xml": c.xml, "events": c.events, "single": c.single, "at": i}));
+                rep.oracle_fail("C03:idle-with-enabled-eventless-transition", json!({"origin": c.origin, "xml": c.xml, "events": c.events, "single": c.single, "child": c.child, "at": i}));
             }
         } else if let Some(h) = o.strip_prefix("ext:") {
             if i == 0 || obs[i - 1] != "idle" {
-                rep.oracle_fail("C03:external-event-taken-mid-macrostep", json!({"origin": c.origin, "xml": c.xml, "events": c.events, "single": c.single, "at": i}));
+                rep.oracle_fail("C03:external-event-taken-mid-macrostep", json!({"origin": c.origin, "xml": c.xml, "events": c.events, "single": c.single, "child": c.child, "at": i}));
             }
             let name = crate::proto::unhex(h).map(|b| String::from_utf8_lossy(&b).to_string()).unwrap_or_default();
             consumed.push(name);
@@ -440,7 +500,7 @@ pub fn oracle_c03(c: &Case, imp: &ImplRun, rep: &mut Report) {
     let ended_early = seen.len() < expected.len();
     for (k, n) in seen.iter().enumerate() {
         if k >= expected.len() || **n != expected[k] {
-            rep.oracle_fail("C03:external-order-or-multiplicity", json!({"origin": c.origin, "xml": c.xml, "events": c.events, "single": c.single, "consumed": consumed}));
+            rep.oracle_fail("C03:external-order-or-multiplicity", json!({"origin": c.origin, "xml": c.xml, "events": c.events, "single": c.single, "child": c.child, "consumed": consumed}));
             return;
         }
     }
@@ -562,7 +622,7 @@ pub fn oracle_c06(c: &Case, imp: &ImplRun, rep: &mut Report) {
     let mut contents: Vec<u32> = vec![];
     let mut in_enter = false;
     let fail = |rep: &mut Report, sig: &str, extra: serde_json::Value| {
-        rep.oracle_fail(sig, json!({"origin": c.origin, "xml": c.xml, "events": c.events, "single": c.single, "detail": extra}));
+        rep.oracle_fail(sig, json!({"origin": c.origin, "xml": c.xml, "events": c.events, "single": c.single, "child": c.child, "detail": extra}));
     };
     for l in &imp.out.trace {
         if let Some(v) = l.strip_prefix("res enabledTransitions=") {
@@ -671,7 +731,7 @@ pub fn oracle_c07(c: &Case, imp: &ImplRun, rep: &mut Report) {
     let mut after_stop_contents: Vec<u32> = vec![];
     let mut cfg_at_stop: Vec<u32> = vec![];
     let fail = |rep: &mut Report, sig: &str, extra: serde_json::Value| {
-        rep.oracle_fail(sig, json!({"origin": c.origin, "xml": c.xml, "events": c.events, "single": c.single, "detail": extra}));
+        rep.oracle_fail(sig, json!({"origin": c.origin, "xml": c.xml, "events": c.events, "single": c.single, "child": c.child, "detail": extra}));
     };
     let mut flush = |pending: &mut Vec<String>, rep: &mut Report| {
         if !pending.is_empty() {
@@ -772,6 +832,7 @@ pub fn corpus(prop: &str) -> Vec<Case> {
             <state id=\"out\"><transition event=\"a\" target=\"hp\"/></state><final id=\"fin\"/>"),
         events: ["a", "b", "x", "a", "a", "c", "d.e"].iter().map(|s| s.to_string()).collect(),
         single: false,
+        child: true,
         origin: format!("corpus {} parallel-history-finals", prop),
     });
     // eventless chain, internal events before the next external one
@@ -780,6 +841,7 @@ pub fn corpus(prop: &str) -> Vec<Case> {
             <state id=\"s2\"><transition event=\"r1\" target=\"s3\"/><transition event=\"a\" target=\"s1\"/></state><state id=\"s3\"><transition event=\"a\" target=\"s1\"/></state>"),
         events: ["a", "a", "b", "a"].iter().map(|s| s.to_string()).collect(),
         single: true,
+        child: false,
         origin: format!("corpus {} run-to-completion", prop),
     });
     // shallow history in a compound, internal vs external self-targeting
@@ -790,6 +852,7 @@ pub fn corpus(prop: &str) -> Vec<Case> {
             <state id=\"o\"><transition event=\"b\" target=\"h\"/><transition event=\"c\" target=\"c\"/></state>"),
         events: ["b", "b", "a", "a", "b", "b", "c", "d.e", "b", "c"].iter().map(|s| s.to_string()).collect(),
         single: true,
+        child: false,
         origin: format!("corpus {} shallow-history", prop),
     });
     v
@@ -809,6 +872,7 @@ pub fn run(args: &Args, model: &mut Model, prop: &str) -> Report {
             xml: v["xml"].as_str().unwrap_or("").to_string(),
             events: v["events"].as_array().map(|a| a.iter().map(|x| x.as_str().unwrap_or("").to_string()).collect()).unwrap_or_default(),
             single: v["single"].as_bool().unwrap_or(false),
+            child: v["child"].as_bool().unwrap_or(false),
             origin: "replay".to_string(),
         }]
     } else {
@@ -864,7 +928,7 @@ pub fn run(args: &Args, model: &mut Model, prop: &str) -> Report {
                 _ => {}
             }
             if rep.samples.len() < 3 {
-                rep.sample(json!({"xml": c.xml, "events": c.events, "single": c.single, "observations": imp.obs.len(), "first_observations": imp.obs.iter().take(12).collect::<Vec<_>>()}));
+                rep.sample(json!({"xml": c.xml, "events": c.events, "single": c.single, "child": c.child, "observations": imp.obs.len(), "first_observations": imp.obs.iter().take(12).collect::<Vec<_>>()}));
             }
         }
     }
